@@ -709,6 +709,9 @@ func assignValues(command string, params map[string]string) string {
 }
 
 // convertMap converts a map[any]any to a map[string]any.
+// Nested maps are converted too, including the ones inside lists, so that
+// the executor config (and with it the status of the DAG) can be encoded
+// as JSON.
 func convertMap(m map[string]any) error {
 	if m == nil {
 		return nil
@@ -720,30 +723,64 @@ func convertMap(m map[string]any) error {
 		curr := queue[0]
 
 		for k, v := range curr {
-			mm, ok := v.(map[any]any)
-			if !ok {
-				// TODO: do we need to return an error here?
-				continue
-			}
-
-			ret := make(map[string]any)
-			for kk, vv := range mm {
-				key, err := parseKey(kk)
+			switch vv := v.(type) {
+			case map[any]any:
+				ret, err := convertKeys(vv)
 				if err != nil {
-					return fmt.Errorf(
-						"%w: %s", errExecutorConfigMustBeString, err,
-					)
+					return err
 				}
-				ret[key] = vv
-			}
+				delete(curr, k)
+				curr[k] = ret
+				queue = append(queue, ret)
 
-			delete(curr, k)
-			curr[k] = ret
-			queue = append(queue, ret)
+			case []any:
+				if err := convertList(vv, &queue); err != nil {
+					return err
+				}
+
+			}
 		}
 		queue = queue[1:]
 	}
 
+	return nil
+}
+
+// convertKeys returns a copy of the map with string keys.
+func convertKeys(mm map[any]any) (map[string]any, error) {
+	ret := make(map[string]any)
+	for kk, vv := range mm {
+		key, err := parseKey(kk)
+		if err != nil {
+			return nil, fmt.Errorf(
+				"%w: %s", errExecutorConfigMustBeString, err,
+			)
+		}
+		ret[key] = vv
+	}
+	return ret, nil
+}
+
+// convertList converts the maps that are elements of the list (or of a
+// nested list) and queues them for the conversion of their own values.
+func convertList(list []any, queue *[]map[string]any) error {
+	for i, item := range list {
+		switch v := item.(type) {
+		case map[any]any:
+			ret, err := convertKeys(v)
+			if err != nil {
+				return err
+			}
+			list[i] = ret
+			*queue = append(*queue, ret)
+
+		case []any:
+			if err := convertList(v, queue); err != nil {
+				return err
+			}
+
+		}
+	}
 	return nil
 }
 
